@@ -1,6 +1,6 @@
 (* The precompiled contracts of crates/precompile, one Gallina function per Rust `run`
    function, same order of checks, same error kinds.  Cryptographic cores that are OPAQUE here
-   (BN254 pairing value and G2 subgroup membership, KZG proof verification, BLS12-381 group
+   (BN254 pairing value, KZG proof verification, BLS12-381 group
    operations / subgroup checks / maps) take the implementation's observed result as an
    [oracle] argument: the model then fixes gas, input-length, padding, canonical-encoding and
    curve-membership rules and the shape of the output, and returns the oracle's value for the
@@ -141,6 +141,90 @@ Definition bn_run_mul (input : bytes) (gas_cost gas_limit : Z) : presult :=
 (* ---------------- 0x08 BN254 pairing: gas, length and point-format rules ---------------- *)
 Definition bool32 (b : bool) : bytes := zeros 31 ++ [if b then 1 else 0].
 
+(* ---- G2 of BN254: the twist y^2 = x^3 + 3/(9+i) over Fp2 = Fp[i]/(i^2+1), elements (re, im).
+   AffineG2::new of substrate-bn accepts a point iff it is on the twist and in the subgroup of
+   order n (it checks n*P = O). Both are executable here. *)
+Definition fp2 := (Z * Z)%type.
+Definition f2_add (a b : fp2) : fp2 := (fadd bn_F (fst a) (fst b), fadd bn_F (snd a) (snd b)).
+Definition f2_sub (a b : fp2) : fp2 := (fsub bn_F (fst a) (fst b), fsub bn_F (snd a) (snd b)).
+(* operands are reduced representatives (0 <= . < p): products stay below 2^508 for the Barrett step *)
+Definition f2_mul (a b : fp2) : fp2 :=
+  (fsub bn_F (fmul bn_F (fst a) (fst b)) (fmul bn_F (snd a) (snd b)),
+   fadd bn_F (fmul bn_F (fst a) (snd b)) (fmul bn_F (snd a) (fst b))).
+Definition f2_sqr (a : fp2) : fp2 := f2_mul a a.
+Definition f2_dbl (a : fp2) : fp2 := f2_add a a.
+Definition f2_eqb (a b : fp2) : bool := (fst a =? fst b) && (snd a =? snd b).
+Definition f2_zero : fp2 := (0, 0).
+Definition bn_twist_b : fp2 :=
+  (19485874751759354771024239261021720505790618469301721065564631296452457478373,
+   266929791119991161246907387137283842545076965332900288569378510910307636690).
+Definition g2_on_curve (x y : fp2) : bool :=
+  f2_eqb (f2_sqr y) (f2_add (f2_mul (f2_sqr x) x) bn_twist_b).
+(* Jacobian coordinates (X, Y, Z) over Fp2, curve coefficient a = 0; Z = 0 is the point at infinity *)
+Definition g2j := (fp2 * fp2 * fp2)%type.
+Definition g2j_inf : g2j := ((1, 0), (1, 0), f2_zero).
+Definition g2j_is_inf (p : g2j) : bool := f2_eqb (snd p) f2_zero.
+Definition g2j_double (p : g2j) : g2j :=
+  let '(x, y, z) := p in
+  if f2_eqb z f2_zero then p else
+  let a := f2_sqr x in let b := f2_sqr y in let c := f2_sqr b in
+  let d := f2_dbl (f2_sub (f2_sub (f2_sqr (f2_add x b)) a) c) in
+  let e := f2_add (f2_dbl a) a in
+  let f := f2_sqr e in
+  let x3 := f2_sub f (f2_dbl d) in
+  let y3 := f2_sub (f2_mul e (f2_sub d x3)) (f2_dbl (f2_dbl (f2_dbl c))) in
+  let z3 := f2_dbl (f2_mul y z) in
+  (x3, y3, z3).
+(* mixed addition of the affine point (x2, y2) *)
+Definition g2j_add_affine (p : g2j) (x2 y2 : fp2) : g2j :=
+  let '(x1, y1, z1) := p in
+  if f2_eqb z1 f2_zero then (x2, y2, (1, 0)) else
+  let z1z1 := f2_sqr z1 in
+  let u2 := f2_mul x2 z1z1 in
+  let s2 := f2_mul (f2_mul y2 z1) z1z1 in
+  if f2_eqb u2 x1 then
+    (if f2_eqb s2 y1 then g2j_double p else g2j_inf)
+  else
+    let h := f2_sub u2 x1 in
+    let hh := f2_sqr h in
+    let i := f2_dbl (f2_dbl hh) in
+    let j := f2_mul h i in
+    let r := f2_dbl (f2_sub s2 y1) in
+    let v := f2_mul x1 i in
+    let x3 := f2_sub (f2_sub (f2_sqr r) j) (f2_dbl v) in
+    let y3 := f2_sub (f2_mul r (f2_sub v x3)) (f2_dbl (f2_mul y1 j)) in
+    let z3 := f2_sub (f2_sub (f2_sqr (f2_add z1 h)) z1z1) hh in
+    (x3, y3, z3).
+(* k * (x, y), bits of k from the most significant one *)
+Fixpoint g2_mul_bits (bits : list bool) (acc : g2j) (x y : fp2) : g2j :=
+  match bits with
+  | [] => acc
+  | b :: r => let d := g2j_double acc in g2_mul_bits r (if b then g2j_add_affine d x y else d) x y
+  end.
+Definition bits_msb (n : Z) : list bool := rev (map (Z.testbit n) (map Z.of_nat (seq 0 254))).
+Definition g2_in_subgroup (x y : fp2) : bool := g2j_is_inf (g2_mul_bits (bits_msb bn_n) g2j_inf x y).
+(* the four field elements of the encoding: x = fq3 + fq2 i, y = fq5 + fq4 i (imaginary part first) *)
+Definition bn_g2_valid (xi xr yi yr : Z) : bool :=
+  if g2_on_curve (xr, xi) (yr, yi) then g2_in_subgroup (xr, xi) (yr, yi) else false.
+(* The subgroup check costs ~25 s under vm_compute. Two points that the generated inputs reuse
+   (the G2 generator and the first G2 point of the EIP-197 test vector) are answered from a table;
+   Proofs/PrecompileProofs.v proves that the table agrees with [bn_g2_valid]
+   (bn_g2_valid_memo_exact), so the memoised function IS the executable definition above. *)
+Definition bn_g2_known : list (Z * Z * Z * Z) :=
+  [(11559732032986387107991004021392285783925812861821192530917403151452391805634,
+    10857046999023057135944570762232829481370756359578518086990519993285655852781,
+    4082367875863433681332203403145435568316851327593401208105741076214120093531,
+    8495653923123431417604973247489272438418190587263600148770280649306958101930);
+   (14752851163271972921165116810778899752274893127848647655434033030151679466487,
+    2146841959437886920191033516947821737903543682424168472444605468016078231160,
+    19774899457345372253936887903062884289284519982717033379297427576421785416781,
+    8159591693044959083845993640644415462154314071906244874217244895511876957520)].
+Definition q4_eqb (a b : Z * Z * Z * Z) : bool :=
+  let '(a1, a2, a3, a4) := a in let '(b1, b2, b3, b4) := b in
+  (a1 =? b1) && (a2 =? b2) && (a3 =? b3) && (a4 =? b4).
+Definition bn_g2_valid_memo (xi xr yi yr : Z) : bool :=
+  if existsb (q4_eqb (xi, xr, yi, yr)) bn_g2_known then true else bn_g2_valid xi xr yi yr.
+
 (* state of the walk over the pairs: [all_trivial] = every pair so far has G1 or G2 at infinity *)
 Fixpoint bn_pair_walk (elems : list bytes) (oracle : presult) (all_trivial : bool) (gas_used : Z) : presult :=
   match elems with
@@ -160,11 +244,9 @@ Fixpoint bn_pair_walk (elems : list bytes) (oracle : presult) (all_trivial : boo
     let g2_inf := forallb (fun n => fq n =? 0) (seq 2 4) in
     if g2_inf then bn_pair_walk rest oracle all_trivial gas_used
     else
-      (* OPAQUE: membership of the G2 point in the order-n subgroup of the twist *)
-      match oracle with
-      | PErr 8 => PErr E_Bn128AffineGFailedToCreate
-      | _ => bn_pair_walk rest oracle (all_trivial && g1_inf) gas_used
-      end
+      (* the G2 point must be on the twist and in the subgroup of order n, whatever it is paired with *)
+      if negb (bn_g2_valid_memo (fq 2%nat) (fq 3%nat) (fq 4%nat) (fq 5%nat)) then PErr E_Bn128AffineGFailedToCreate
+      else bn_pair_walk rest oracle (all_trivial && g1_inf) gas_used
   end.
 
 Definition bn_run_pair (input : bytes) (per_point base gas_limit : Z) (oracle : presult) : presult :=
